@@ -13,7 +13,7 @@ Lemma parse_escr_sim : sim eq parse_escr parseESCR.
 Proof.
   unfold parse_escr, parseESCR. cbv zeta. apply sim_bytes_fun. intros bs Hok Hlen.
   explode_bytes bs Hlen Hok. nth_lit. pose proof Hok as Hok'. bytes_inv Hok'.
-  unfold mk_cr, newClockReference. f_equal; bridge.
+  unfold mk_cr, newClockReference, sint. change (64 - 1) with 63. f_equal; bridge.
 Qed.
 
 (* ---------------- DSM trick mode (a pure function of one byte: complete sweep) ---------------- *)
